@@ -33,6 +33,9 @@ struct Shared {
     write_hiccup: Option<(usize, io::ErrorKind)>,
     /// the next write call sleeps this long first (the calling thread - the I/O thread - is stalled)
     park_next_write_ms: u64,
+    /// ... or right after it has handed its bytes over (a slow return from the call: the peer
+    /// already has the data and may answer while the caller is still stalled)
+    park_after_next_write_ms: u64,
     /// the next re-registration that asks for writable sleeps this long first (it is the last thing
     /// a pass of the I/O loop does before it polls again)
     park_next_rereg_ms: u64,
@@ -40,6 +43,9 @@ struct Shared {
     /// channels during the stall, so the next batch is [socket, channel] - the order a real socket
     /// gives (mio 0.6 reports the selector's events before those of its user-space queue)
     park_rereg_after: bool,
+    /// the next re-registration for READABLE ONLY (the end of a pass that wrote everything out)
+    /// stalls its thread this long after it took effect
+    park_next_rereg_ronly_ms: u64,
     reads: usize,
     writes: usize,
     dropped: bool,
@@ -73,8 +79,10 @@ pub fn pair() -> (MockStream, Peer) {
             write_fault_after: None,
             write_hiccup: None,
             park_next_write_ms: 0,
+            park_after_next_write_ms: 0,
             park_next_rereg_ms: 0,
             park_rereg_after: false,
+            park_next_rereg_ronly_ms: 0,
             reads: 0,
             writes: 0,
             dropped: false,
@@ -199,6 +207,11 @@ impl io::Write for MockStream {
         sh.write_log.push((Instant::now(), total));
         cv.notify_all();
         amiquip::verif::pass_log::note(format!("w {}", n));
+        let after = std::mem::replace(&mut sh.park_after_next_write_ms, 0);
+        drop(sh);
+        if after > 0 {
+            std::thread::sleep(Duration::from_millis(after));
+        }
         Ok(n)
     }
 
@@ -224,6 +237,9 @@ impl Evented for MockStream {
             } else {
                 after = park;
             }
+        }
+        if !interest.is_writable() {
+            after = std::mem::replace(&mut self.shared.0.lock().unwrap().park_next_rereg_ronly_ms, 0);
         }
         amiquip::verif::pass_log::note(format!("rereg {}", format!("{}{}", if interest.is_readable() { "r" } else { "" }, if interest.is_writable() { "w" } else { "" })));
         let r = self.registration.reregister(poll, token, interest, opts);
@@ -354,6 +370,16 @@ impl Peer {
         let mut sh = self.shared.0.lock().unwrap();
         sh.park_next_rereg_ms = ms;
         sh.park_rereg_after = true;
+    }
+
+    /// The next re-registration for readable only stalls its thread for `ms` (after taking effect).
+    pub fn park_next_rereg_ronly(&self, ms: u64) {
+        self.shared.0.lock().unwrap().park_next_rereg_ronly_ms = ms;
+    }
+
+    /// The next successful write call stalls its thread for `ms` after the bytes were handed over.
+    pub fn park_after_next_write(&self, ms: u64) {
+        self.shared.0.lock().unwrap().park_after_next_write_ms = ms;
     }
 
     /// The next write call stalls its thread for `ms` before it proceeds.
